@@ -50,6 +50,7 @@ type EntrySpec struct {
 	NoValidate   bool                `json:"no_validate"`
 	ExpectNd     bool                `json:"expect_no_nondeterminism"`
 	NativeRename map[string][]string `json:"native_rename"`
+	NativeFiles  []string            `json:"native_files"`
 }
 
 type CheckSpec struct {
@@ -214,6 +215,7 @@ func cmdCheck(args []string) int {
 	workers := fs.Int("j", runtime.NumCPU(), "workers")
 	verbose := fs.Bool("v", false, "verbose")
 	noEvidence := fs.Bool("no-evidence", false, "do not write the evidence file")
+	maxPathsOv := fs.Int("maxpaths", 0, "override the path limit (probing)")
 	var id string
 	if len(args) > 0 && !strings.HasPrefix(args[0], "-") {
 		id = args[0]
@@ -313,6 +315,9 @@ func cmdCheck(args []string) int {
 		if es.MaxEnum > 0 {
 			cfg.MaxEnum = es.MaxEnum
 		}
+		if *maxPathsOv > 0 {
+			cfg.MaxPaths = *maxPathsOv
+		}
 		cfg.ForkMapOrder = es.ForkMap
 		cfg.AllowCuts = es.AllowCuts
 		cfg.CheckOverflow = es.Overflow
@@ -397,7 +402,7 @@ func cmdCheck(args []string) int {
 				break
 			}
 			p := filepath.Join(os.TempDir(), fmt.Sprintf("gosym-witness-%d-%s-%d-%d.json", os.Getpid(), id, ei, i))
-			witnessJobs = append(witnessJobs, ReplayJob{Dir: es.Dir, Entry: es.Entry, Script: w.Script, Tol: es.Tol, Path: p, Real: es.Mode != "F", Rename: es.NativeRename})
+			witnessJobs = append(witnessJobs, ReplayJob{Dir: es.Dir, Entry: es.Entry, Script: w.Script, Tol: es.Tol, Path: p, Real: es.Mode != "F", Rename: es.NativeRename, NativeFiles: es.NativeFiles})
 			witnessObs[p] = w.Observed
 			witnessEntry[p] = len(reports)
 		}
@@ -421,7 +426,7 @@ func cmdCheck(args []string) int {
 	// ---- native replay of counter-examples and witness validation (one go test per package) ----
 	var jobs []ReplayJob
 	for _, c := range cands {
-		jobs = append(jobs, ReplayJob{Dir: c.spec.Dir, Entry: c.spec.Entry, Script: c.v.Script, Tol: c.spec.Tol, Path: c.path, Real: c.spec.Mode != "F", Rename: c.spec.NativeRename})
+		jobs = append(jobs, ReplayJob{Dir: c.spec.Dir, Entry: c.spec.Entry, Script: c.v.Script, Tol: c.spec.Tol, Path: c.path, Real: c.spec.Mode != "F", Rename: c.spec.NativeRename, NativeFiles: c.spec.NativeFiles})
 	}
 	needRace := false
 	for _, c := range cands {
